@@ -1,2 +1,3 @@
+pub mod policy;
 pub mod text;
 pub mod wire;
